@@ -108,9 +108,19 @@ func verifSameStructure(userSQL, benignSQL, userValue, benignValue, where string
 	carried := false
 	for i := range ut {
 		u, b := ut[i], bt[i]
-		verifrt.Assert(u.kind == b.kind, where+": SQL token kinds are the same as for a benign value")
-		verifrt.Assert(u.kind != 'E', where+": SQL lexes without error")
 		utext, btext := userSQL[u.start:u.end], benignSQL[b.start:b.end]
+		verifrt.Assert(u.kind != 'E', where+": SQL lexes without error")
+		if b.kind == 'w' && btext == benignValue {
+			// the benign name is a bare identifier; the user name may be bare (if it is one) or quoted
+			carried = true
+			if u.kind == 'q' {
+				verifrt.Assert(verifUnquoteSQL(utext) == userValue, where+": the quoted identifier PostgreSQL reads back is the user's name")
+			} else {
+				verifrt.Assert(u.kind == 'w' && utext == userValue, where+": the user's name is one identifier token")
+			}
+			continue
+		}
+		verifrt.Assert(u.kind == b.kind, where+": SQL token kinds are the same as for a benign value")
 		if b.kind == 's' || b.kind == 'q' {
 			bval := verifUnquoteSQL(btext)
 			if bval == benignValue {
@@ -248,11 +258,20 @@ func VerifC04Key(shape, n int) {
 
 // VerifC04Name: n symbolic bytes as alias / variable / kind name.
 func VerifC04Name(shape, n int) {
-	name := verifrt.NondetString("name", n)
-	for i := 0; i < len(name); i++ {
-		verifrt.Assume(name[i] != 0)
+	raw := verifrt.NondetString("name", n)
+	// the bytes stand between the back-tick delimiters of an escaped symbolic name: a
+	// back-tick inside must be doubled, and the name denoted has them collapsed
+	var nameBytes []byte
+	for i := 0; i < len(raw); i++ {
+		verifrt.Assume(raw[i] != 0)
+		if raw[i] == '`' {
+			verifrt.Assume(i+1 < len(raw) && raw[i+1] == '`')
+			i++
+		}
+		nameBytes = append(nameBytes, raw[i])
 	}
-	q, err := verifNativeParse(verifNameShapes[shape], map[string]string{verifMarker: name})
+	name := string(nameBytes)
+	q, err := verifNativeParse(verifNameShapes[shape], map[string]string{verifMarker: raw})
 	verifrt.Assert(err == nil, "template parses")
 	sql, params, err := verifTranslate(q, nil)
 	if err != nil {
